@@ -103,7 +103,7 @@ FieldDom(f, base) ==
                          ELSE {-32768, -1, 0, 1, 32767} \cup (IF Deep THEN {-32767, -256, -255, -129, -128, -2, 2, 127, 128, 255, 256, 4660, 32766} ELSE {})
     [] f.k = "w32"    -> {<<0, 0>>, <<1, 0>>, <<65535, 0>>, <<0, 1>>, <<65535, 32767>>, <<0, 32768>>, <<65535, 65535>>}
     [] f.k = "bool"   -> BOOLEAN
-    [] f.k = "char"   -> {0, 33, 65, 127, 255}
+    [] f.k = "char"   -> {0, 33, 65, 127, 128, 131, 159, 160, 233, 255}
     [] f.k = "enum"   -> DOMAIN f.table
     [] f.k = "flags"  -> {<<>>, SetToSeq(DOMAIN f.table)} \cup {<<n>> : n \in DOMAIN f.table}
                          \cup (IF Deep THEN {SetToSeq({n, m}) : n \in DOMAIN f.table, m \in DOMAIN f.table}
@@ -172,6 +172,8 @@ Hostile(kind) ==
        \* its own writer and is covered by the MsoDec events
        [] fs[i].k = "vstr" /\ kind # "Mso" ->
              <<[b EXCEPT ![fs[i].name] = T(fs[i].max, 65)], [b EXCEPT ![fs[i].name] = T(fs[i].max + 1, 66)], [b EXCEPT ![fs[i].name] = T(fs[i].max + 6, 67)]>>
+       \* characters that do not fit the one byte of their field (Latin Extended, Cyrillic, CJK, Hangul, the euro sign)
+       [] fs[i].k = "char" -> [c \in 1..5 |-> [b EXCEPT ![fs[i].name] = <<283, 1096, 32654, 54620, 8364>>[c]]]
        [] fs[i].k = "dur" -> <<[b EXCEPT ![fs[i].name] = DurL(IF fs[i].w = 2 THEN (IF fs[i].scale = 10 THEN Mul10(<<0, 1, 0, 0>>) ELSE <<0, 1, 0, 0>>)
                                                                          ELSE (IF fs[i].scale = 10 THEN Mul10(<<0, 0, 1, 0>>) ELSE <<0, 0, 1, 0>>))]>>
        [] fs[i].k = "struct" /\ \E g \in 1..Len(fs[i].sub) : fs[i].sub[g].k = "nib" ->
@@ -183,7 +185,7 @@ KindSeq == SetToSeq(Kinds)
 Line(kind, mode, rec, dom) ==
   LET o == EncodeOutcome(kind, rec, mode) IN
   PrintT(<<"VEC", ToJson([kind |-> kind, mode |-> mode, rec |-> rec, outcome |-> o, domain |-> dom,
-                          bytes |-> IF o # "refused" THEN SpecEncode(kind, rec, mode) ELSE <<>>])>>)
+                          bytes |-> IF o \in {"ok", "any"} THEN SpecEncode(kind, rec, mode) ELSE <<>>])>>)
 \* the laws every frame of the specification itself obeys (C03 on the model)
 WellFormedVec(kind, mode, rec) ==
   EncodeOutcome(kind, rec, mode) # "refused" =>
